@@ -239,11 +239,25 @@ class WsgiExchange(object):
         return [v for (n, v) in (self.headers or []) if n.lower() == name]
 
     def call(self, app, environ):
+        fw = environ.get('wsgi.file_wrapper')
+        if isinstance(fw, type) and issubclass(fw, FileWrapper):
+            # servers like mod_wsgi bind the wrapper to the request (its connection): hand out a
+            # per-request factory and check below that the response uses this request's own
+            exchange = self
+
+            def bound_file_wrapper(filelike, blksize=8192):
+                w = fw(filelike, blksize)
+                w.owner = exchange
+                return w
+            environ['wsgi.file_wrapper'] = bound_file_wrapper
         try:
             self.iterable = app(environ, self.start_response)
         except Exception as ex:
             self.app_exc = ex
             return False
+        if isinstance(self.iterable, FileWrapper) and getattr(self.iterable, 'owner', self) is not self:
+            self.flag('foreign_file_wrapper', 'the response was built with the wsgi.file_wrapper of '
+                      'another request')
         if self.start_calls == 0:
             # PEP 3333 allows deferring start_response until the first
             # iteration step; Falcon documents calling it before returning.
